@@ -29,7 +29,7 @@ Lemma Sx_asg : forall cpp o l ra ta ka rb tb kb,
   ka <= 13 -> kb <= 14 -> ender2 ra -> rb <> [] -> ra <> [] ->
   Sx cpp (ra ++ (l, TOp (OAsg o)) :: rb) (B (l, TOp (OAsg o)) ta tb) 14.
 Proof.
-  intros cpp o l ra ta ka rb tb kb IHa IHb Hka Hkb Hend Hrb Hra f d s rest out n Hrk Hd Hn Hlen Hop Hps Hj Hnd Hq Hq14 Hq1 Hc.
+  intros cpp o l ra ta ka rb tb kb IHa IHb Hka Hkb Hend Hrb Hra f d s rest out n Hrk Hd Hn Hlen Hop Hps Hj Hnd Hq Hq14 Hq1 Hz Hc.
   set (op := (l, TOp (OAsg o))) in *.
   rewrite app_length in Hn. cbn [length] in Hn.
   rewrite <- app_assoc in *. cbn [app] in *.
@@ -64,6 +64,9 @@ Proof.
         rewrite <- rev_mid. apply Hq14. reflexivity.
       - intros E a0. unfold s1, sa, mkafter, set_asgn. cbn [bef asgn stk depth].
         rewrite <- rev_mid. apply Hq. lia.
+      - intros E Hh. unfold s1, sa, mkafter, set_asgn. cbn [bef asgn stk depth].
+        rewrite <- rev_mid. apply Hz; [reflexivity|].
+        rewrite hasq_app. cbn [hasq existsb] in *. fold (hasq rb). rewrite Hh, !orb_true_r. reflexivity.
       - unfold mkafter. apply cont_quiet; [exact Hkb|]. intros r Hr.
         unfold s1, sa, mkafter, set_asgn. cbn [bef asgn stk depth]. rewrite <- rev_mid.
         destruct (Nat.eq_dec r 14) as [->|Hne]; [apply Hq14; reflexivity|apply Hq; lia]. }
@@ -96,6 +99,7 @@ Proof.
   - intros r a0 Hr. apply quiet_asgop; [apply Hend|lia].
   - intros E. lia.
   - intros E a0. apply quiet_asgop; [apply Hend|lia].
+  - intros E. lia.
   - fold sa. unfold cont.
     assert (Hqa : forall r, r < 14 -> quiet cpp r (bef sa) (asgn sa) (op :: rb ++ rest)).
     { intros r Hr. unfold sa, mkafter. cbn [bef asgn]. apply quiet_asgop; [apply Hend|exact Hr]. }
@@ -113,7 +117,7 @@ Lemma Sx_comma : forall cpp l ra ta ka rb tb kb,
   ka <= 15 -> kb <= 14 -> rb <> [] -> ra <> [] ->
   Sx cpp (ra ++ (l, TComma) :: rb) (B (l, TComma) ta tb) 15.
 Proof.
-  intros cpp l ra ta ka rb tb kb IHa IHb Hka Hkb Hrb Hra f d s rest out n Hrk Hd Hn Hlen Hop Hps Hj Hnd Hq Hq14 Hq1 Hc.
+  intros cpp l ra ta ka rb tb kb IHa IHb Hka Hkb Hrb Hra f d s rest out n Hrk Hd Hn Hlen Hop Hps Hj Hnd Hq Hq14 Hq1 Hz Hc.
   set (op := (l, TComma)) in *.
   rewrite app_length in Hn. cbn [length] in Hn.
   rewrite <- app_assoc in *. cbn [app] in *.
@@ -146,6 +150,8 @@ Proof.
         rewrite <- rev_mid. apply Hq. lia.
       - intros E a0. unfold s1, sa, mkafter. cbn [bef asgn].
         rewrite <- rev_mid. apply Hq. lia.
+      - intros E Hh. unfold s1, sa, mkafter. cbn [bef asgn].
+        rewrite <- rev_mid. apply Hq. lia.
       - unfold mkafter. apply cont_quiet; [exact Hkb|]. intros r Hr. unfold s1, sa, mkafter. cbn [bef asgn stk depth].
         rewrite <- rev_mid. apply Hq. lia. }
     change (t1 :: rb' ++ rest) with (rb ++ rest). rewrite Hb.
@@ -176,6 +182,7 @@ Proof.
   - intros r a0 Hr. apply quiet_comma. lia.
   - intros E a0. apply quiet_comma. lia.
   - intros E a0. apply quiet_comma. lia.
+  - intros E Hh. apply quiet_comma. lia.
   - fold sa. unfold cont.
     destruct (Nat.eq_dec ka 15) as [->|Hne].
     + apply Hstep. lia.
